@@ -15,6 +15,14 @@ CHECKS = {
              "registry configurations are sampled. Establishes the property on the enumerated pairs, samples the rest.",
         note="Trusts R (vf/oracle/defreader.py, no pint code) as reader of default_en.txt; compound units, spellings and configurations are sampled, not exhausted.",
         design="5/C01"),
+    "C02": dict(
+        technique="bounded-exhaustive enumeration of same-dimension unit pairs in Fraction/Decimal/float registries + Hypothesis compound units; differential oracle = exact rational ratio from an independent definition reader; algebraic laws (identity, inverse, path independence)",
+        text="Every ordered same-dimension pair of multiplicative canonical units (7.4k ordered pairs, exhaustive) is converted in all three numeric "
+             "configurations, twice and in both orders, and compared with the exact Fraction ratio computed by R: == and int/Fraction type in the "
+             "Fraction registry, 1e-26 relative in Decimal, (16+4n) ulp in float. Prefix x spelling x plural strings, root-unit expansions, "
+             "conversion laws and compound units are enumerated/sampled. Exhaustive on the pair domain, sampling beyond it.",
+        note="R reads the same definition files (wrong literals in the files are C20's); 29 float-tainted units (fractional power of a scale) are compared with the float tolerance in every registry type.",
+        design="5/C02"),
 }
 
 NOT_YET = "check not built yet in this session (work in progress, see DESIGN.md section 5)"
